@@ -27,13 +27,12 @@ Definition spec_content (kids : list snode) (st : strategy) (src tgt : content) 
   | Upsert => Ok (merge_content kids src tgt)
   | Insert => if insert_conflicts kids src tgt then Err EConflict else Ok (merge_content kids src tgt)
   | Update =>
-      if update_missing (SCont (mkMeta [] [] true [] None) kids) (DCont src) (DCont tgt)
+      if missing_kids update_missing kids src tgt
       then Err ENotFound else Ok (merge_content kids src tgt)
   end.
 
 Definition list_insert_conflict (keys : list nat) (srows trows : list dnode) : bool :=
-  existsb (fun sr => match (if key_usable (row_key keys sr) then find_row keys (row_key keys sr) trows O else None) with
-                     | Some _ => true | None => false end) srows.
+  existsb (fun sr => match lookup_row keys sr trows with Some _ => true | None => false end) srows.
 
 Definition classify (c : case) : verdict :=
   match c with
